@@ -425,6 +425,10 @@ func (u *Unit) sprintfTerm(fr *Frame, st *State, format *Val, va *Val) string {
 	} else if k, ok := u.sliceConstLen[va.T]; ok {
 		n = k
 	}
+	if n == 0 && !fr.formatHas(format, "%") {
+		// a constant format without verbs and without operands is printed as it is
+		return format.T
+	}
 	if n < 0 || n > 6 {
 		r := u.w.newConst("sprintf", "Str")
 		u.fact(fmt.Sprintf("(>= (strlen %s) 0)", r))
